@@ -207,6 +207,239 @@ def parse_tables(rd, strict=True):
     return t
 
 
+
+# ---- shapes.rs: the builder-call scripts of the basic shapes (Gen/ShapePaths.v) ------------------------------
+WARN = r"log::warn!\((?:[^;\"]|\"[^\"]*\")*\);"
+NEWB = r"let mut builder = tiny_skia_path::PathBuilder::new\(\);"
+CALL = r"builder\.\w+\((?:[^;]*)\);"
+
+
+def split_args(a):
+    out, depth, cur = [], 0, ''
+    for ch in a:
+        if ch in '([':
+            depth += 1
+        elif ch in ')]':
+            depth -= 1
+        if ch == ',' and depth == 0:
+            out.append(cur.strip())
+            cur = ''
+        else:
+            cur += ch
+    if cur.strip():
+        out.append(cur.strip())
+    return out
+
+
+def expr_to_coq(e):
+    """arithmetic over identifiers (+ - * / and float literals, `as f32` casts dropped) -> Q expression text"""
+    e = re.sub(r"\s+as f32\b", "", e.strip())
+    if not re.fullmatch(r"[a-z_0-9 +\-*/().]+", e) or not e:
+        raise Missing("shapes.rs: expression %r is outside the transcribed subset" % e)
+    e = re.sub(r"\b(\d+)\.0\b", r"\1", e)
+    if re.search(r"\d\.\d", e):
+        raise Missing("shapes.rs: non-integral literal in %r" % e)
+    return "(%s)" % e if re.search(r"[ +\-*/]", e) else e
+
+
+def call_to_bop(call):
+    m = re.fullmatch(r"builder\.(\w+)\((.*)\);", call.strip())
+    if not m:
+        raise Missing("shapes.rs: %r is not a builder call" % call)
+    name, args = m.group(1), split_args(m.group(2))
+    arity = {'move_to': ('BMove', 2), 'line_to': ('BLine', 2), 'quad_to': ('BQuad', 4), 'cubic_to': ('BCubic', 6), 'close': ('BClose', 0)}
+    if name == 'arc_to':
+        if len(args) != 7 or [norm(a) for a in args[2:5]] != ['0.0', 'false', 'true']:
+            raise Missing("shapes.rs: arc_to with unexpected flags: %r" % call)
+        return "BArc %s" % ' '.join(expr_to_coq(a) for a in args[:2] + args[5:])
+    if name not in arity or len(args) != arity[name][1]:
+        raise Missing("shapes.rs: unexpected builder call %r" % call)
+    return ("%s %s" % (arity[name][0], ' '.join(expr_to_coq(a) for a in args))).strip()
+
+
+def script_of(text):
+    calls = re.findall(CALL, text)
+    if norm(''.join(calls)) != norm(text).replace('; ', ';'):
+        raise Missing("shapes.rs: statements other than builder calls in %r" % text[:80])
+    return "[%s]" % '; '.join(call_to_bop(c) for c in calls)
+
+
+def full(pattern, text, what):
+    m = re.fullmatch(pattern, text)
+    if not m:
+        raise Missing("shapes.rs %s: body no longer has the transcribed form" % what)
+    return m
+
+
+def parse_shapes(rd):
+    src = strip_comments(rd(SHAPES))
+    s = {}
+    b = norm(fn_body(src, 'points_to_path'))
+    m = full(r"use svgtypes::PointsParser; " + NEWB + r" match node\.attribute::<&str>\(AId::Points\) \{ Some\(text\) => \{ "
+             r"for \(x, y\) in PointsParser::from\(text\) \{ if builder\.is_empty\(\) \{ (" + CALL + r") \} else \{ (" + CALL + r") \} \} \} "
+             r"_ => \{ " + WARN + r" return None; \} \}; if builder\.len\(\) < (\d+) \{ " + WARN + r" return None; \} Some\(builder\)",
+             b, 'points_to_path')
+    s['pts_first'], s['pts_next'], s['pts_min'] = call_to_bop(m.group(1)), call_to_bop(m.group(2)), int(m.group(3))
+    m = full(r'let builder = points_to_path\(node, "Polyline"\)\?; builder\.finish\(\)\.map\(Arc::new\)',
+             norm(fn_body(src, 'convert_polyline')), 'convert_polyline')
+    m = full(r'let mut builder = points_to_path\(node, "Polygon"\)\?; ((?:' + CALL + r' )*)builder\.finish\(\)\.map\(Arc::new\)',
+             norm(fn_body(src, 'convert_polygon')), 'convert_polygon')
+    s['polygon_tail'] = script_of(m.group(1))
+    lens = r"((?:let \w+ = node\.convert_user_length\(AId::\w+, state, Length::zero\(\)\); )+)"
+    m = full(lens + NEWB + r" ((?:" + CALL + r" )+)builder\.finish\(\)\.map\(Arc::new\)", norm(fn_body(src, 'convert_line')), 'convert_line')
+    if re.findall(r"let (\w+) = node\.convert_user_length\(AId::(\w+),", m.group(1)) != [('x1', 'X1'), ('y1', 'Y1'), ('x2', 'X2'), ('y2', 'Y2')]:
+        raise Missing("shapes.rs convert_line: attribute bindings changed")
+    s['line'] = script_of(m.group(2))
+    m = full(NEWB + r" ((?:" + CALL + r" )+)builder\.finish\(\)\.map\(Arc::new\)", norm(fn_body(src, 'ellipse_to_path')), 'ellipse_to_path')
+    s['ellipse'] = script_of(m.group(1))
+    guard = r"if !(\w+)\.is_valid_length\(\) \{ " + WARN + r" return None; \}"
+    c = norm(fn_body(src, 'convert_circle'))
+    m = full(lens + r"((?:" + guard + r" )*)ellipse_to_path\(cx, cy, r, r\)", c, 'convert_circle')
+    if re.findall(r"let (\w+) = node\.convert_user_length\(AId::(\w+),", m.group(1)) != [('cx', 'Cx'), ('cy', 'Cy'), ('r', 'R')]:
+        raise Missing("shapes.rs convert_circle: attribute bindings changed")
+    s['circle_guards'] = re.findall(guard, m.group(2))
+    e = norm(fn_body(src, 'convert_ellipse'))
+    m = full(lens + r"let \(rx, ry\) = resolve_rx_ry\(node, state\); ((?:" + guard + r" )*)ellipse_to_path\(cx, cy, rx, ry\)", e, 'convert_ellipse')
+    if re.findall(r"let (\w+) = node\.convert_user_length\(AId::(\w+),", m.group(1)) != [('cx', 'Cx'), ('cy', 'Cy')]:
+        raise Missing("shapes.rs convert_ellipse: attribute bindings changed")
+    s['ellipse_guards'] = re.findall(guard, m.group(2))
+    r_ = norm(fn_body(src, 'convert_rect'))
+    m = full(r"let width = node\.convert_user_length\(AId::Width, state, Length::zero\(\)\); "
+             r"let height = node\.convert_user_length\(AId::Height, state, Length::zero\(\)\); ((?:" + guard + r" )*)"
+             r"let x = node\.convert_user_length\(AId::X, state, Length::zero\(\)\); let y = node\.convert_user_length\(AId::Y, state, Length::zero\(\)\); "
+             r"let \(mut rx, mut ry\) = resolve_rx_ry\(node, state\); "
+             r"if rx > width / [\d.]+ \{ rx = width / [\d.]+; \} if ry > height / [\d.]+ \{ ry = height / [\d.]+; \} "
+             r"let path = if rx\.approx_eq_ulps\(&0\.0, 4\) \{ tiny_skia_path::PathBuilder::from_rect\(Rect::from_xywh\(x, y, width, height\)\?\) \} "
+             r"else \{ " + NEWB + r" ((?:" + CALL + r" )+)builder\.finish\(\)\? \}; Some\(Arc::new\(path\)\)", r_, 'convert_rect')
+    s['rect_guards'] = re.findall(guard, m.group(1))
+    s['rect_round'] = script_of(m.groups()[-1])
+    p = norm(fn_body(src, 'convert_path'))
+    m = full(r"let value: &str = node\.attribute\(AId::D\)\?; " + NEWB + r" for segment in svgtypes::SimplifyingPathParser::from\(value\) \{ "
+             r"let segment = match segment \{ Ok\(v\) => v, Err\(_\) => break, \}; match segment \{ (.*) \} \} builder\.finish\(\)\.map\(Arc::new\)",
+             p, 'convert_path')
+    arms = re.findall(r"svgtypes::SimplePathSegment::(\w+)(?: \{ ([\w, ]*?),? \})? => \{ (" + CALL + r") \}", m.group(1))
+    rest = re.sub(r"svgtypes::SimplePathSegment::(\w+)(?: \{ ([\w, ]*?),? \})? => \{ (" + CALL + r") \}", "", m.group(1)).strip()
+    ctor = {'MoveTo': ('PMove', 'x y'), 'LineTo': ('PLine', 'x y'), 'Quadratic': ('PQuad', 'x1 y1 x y'),
+            'CurveTo': ('PCurve', 'x1 y1 x2 y2 x y'), 'ClosePath': ('PClose', '')}
+    if rest or sorted(a[0] for a in arms) != sorted(ctor):
+        raise Missing("shapes.rs convert_path: segment dispatch changed (%r)" % (rest or [a[0] for a in arms]))
+    s['path_arms'] = []
+    for name, fields, call in arms:
+        if ' '.join(f.strip() for f in fields.split(',') if f.strip()) != ctor[name][1]:
+            raise Missing("shapes.rs convert_path: fields of %s changed" % name)
+        s['path_arms'].append((ctor[name][0], ctor[name][1], call_to_bop(call)))
+    return s
+
+
+# transcription of shapes.rs at /repo cc5bdf2; used ONLY after a broken tie has been reported (see generate)
+PINNED_SHAPES = {'circle_guards': ['r'],
+ 'ellipse': '[BMove (cx + rx) cy; BArc rx ry cx (cy + ry); BArc rx ry (cx - rx) cy; BArc rx ry cx (cy - ry); BArc rx ry (cx + rx) cy; BClose]',
+ 'ellipse_guards': ['rx', 'ry'],
+ 'line': '[BMove x1 y1; BLine x2 y2]',
+ 'path_arms': [('PMove', 'x y', 'BMove x y'),
+               ('PLine', 'x y', 'BLine x y'),
+               ('PQuad', 'x1 y1 x y', 'BQuad x1 y1 x y'),
+               ('PCurve', 'x1 y1 x2 y2 x y', 'BCubic x1 y1 x2 y2 x y'),
+               ('PClose', '', 'BClose')],
+ 'polygon_tail': '[BClose]',
+ 'pts_first': 'BMove x y',
+ 'pts_min': 2,
+ 'pts_next': 'BLine x y',
+ 'rect_guards': ['width', 'height'],
+ 'rect_round': '[BMove (x + rx) y; BLine (x + width - rx) y; BArc rx ry (x + width) (y + ry); BLine (x + width) (y + height - ry); BArc rx ry (x + '
+               'width - rx) (y + height); BLine (x + rx) (y + height); BArc rx ry x (y + height - ry); BLine x (y + ry); BArc rx ry (x + rx) y; '
+               'BClose]'}
+
+
+def render_shapes(s, header):
+    def guards(gs):
+        return ' && '.join('valid_length %s' % g for g in gs) if gs else 'true'
+    o = [header, "From RV Require Import Model.Base Model.ShapePath.\nLocal Open Scope Q_scope.\n",
+         "(* IsValidLength::is_valid_length: > 0 (and finite) *)\nDefinition valid_length (v : Q) : bool := Qltb 0 v.\n",
+         "(* shapes.rs points_to_path: the loop body, the minimal number of verbs *)",
+         "Definition points_to_path_step (builder : pbuilder) (p : Q * Q) : pbuilder :=\n  let x := fst p in let y := snd p in\n"
+         "  if pb_is_empty builder then run_op builder (%s) else run_op builder (%s)." % (s['pts_first'], s['pts_next']),
+         "Definition POINTS_MIN_LEN : nat := %d." % s['pts_min'],
+         "Definition points_to_path (pts : list (Q * Q)) : option pbuilder :=\n  let builder := fold_left points_to_path_step pts pb_new in\n"
+         "  if Nat.ltb (pb_len builder) POINTS_MIN_LEN then None else Some builder.",
+         "Definition convert_polyline (pts : list (Q * Q)) : option (list seg) :=\n  match points_to_path pts with Some builder => pb_finish builder | None => None end.",
+         "Definition convert_polygon (pts : list (Q * Q)) : option (list seg) :=\n  match points_to_path pts with Some builder => pb_finish (run_script %s builder) | None => None end.\n" % s['polygon_tail'],
+         "Definition convert_line (x1 y1 x2 y2 : Q) : option (list seg) :=\n  pb_finish (run_script %s pb_new).\n" % s['line'],
+         "Definition ellipse_to_path (cx cy rx ry : Q) : option (list seg) :=\n  pb_finish (run_script\n    %s pb_new)." % s['ellipse'],
+         "Definition convert_circle (cx cy r : Q) : option (list seg) :=\n  if %s then ellipse_to_path cx cy r r else None." % guards(s['circle_guards']),
+         "(* rx, ry as resolved by resolve_rx_ry *)\nDefinition convert_ellipse (cx cy rx ry : Q) : option (list seg) :=\n  if %s then ellipse_to_path cx cy rx ry else None.\n" % guards(s['ellipse_guards']),
+         "(* shapes.rs convert_rect after the radii are resolved and clamped *)",
+         "Definition rect_guard (width height : Q) : bool := %s." % guards(s['rect_guards']),
+         "Definition rect_path (x y width height rx ry : Q) : option (list seg) :=\n  if Qeqb rx 0 then Some (path_from_rect x y width height)\n"
+         "  else pb_finish (run_script\n    %s pb_new).\n" % s['rect_round'],
+         "(* shapes.rs convert_path: one builder call per simplified segment *)",
+         "Definition path_seg_op (s : simple_seg) : bop :=\n  match s with\n%s\n  end." % "\n".join(
+             "  | %s %s => %s" % (c, f, b) for c, f, b in s['path_arms']),
+         "Definition convert_path (d : list simple_seg) : option (list seg) :=\n  pb_finish (run_script (map path_seg_op d) pb_new)."]
+    return "\n".join(o) + "\n"
+
+
+
+# ---- use_node.rs get_clip_rect: the decision whether a new viewport is clipped, and by which rectangle (Gen/UseClip.v) ----
+COND_TOKENS = [("state.use_size.0.is_none()", "is_none us0"), ("state.use_size.1.is_none()", "is_none us1"),
+               ("use_node.has_attribute(AId::Width)", "has_width"), ("use_node.has_attribute(AId::Height)", "has_height"),
+               ("!w.is_valid_length()", "negb (valid_len w)"), ("!h.is_valid_length()", "negb (valid_len h)"),
+               ("w.is_valid_length()", "valid_len w"), ("h.is_valid_length()", "valid_len h"), ("!(", "negb (")]
+
+
+def cond_to_coq(c):
+    for a, b in COND_TOKENS:
+        c = c.replace(a, b)
+    if not re.fullmatch(r"(?:is_none us[01]|has_width|has_height|negb|valid_len [wh]|&&|\|\||[() ])+", c):
+        raise Missing("use_node.rs get_clip_rect: condition %r is outside the transcribed subset" % c)
+    return c
+
+
+def parse_use_clip(rd):
+    src = strip_comments(rd(USE))
+    b = norm(fn_body(src, 'get_clip_rect'))
+    is_svg = r"use_node\.tag_name\(\) == Some\(EId::Svg\)"
+    m = re.fullmatch(
+        r"if matches!\( symbol_node\.attribute\(AId::Overflow\), ((?:Some\(\"[a-z-]+\"\)(?: \| )?)+) \) \{ return None; \} "
+        r"if " + is_svg + r" \{ if (.+?) \{ if (.+?) \{ return None; \} \} \} "
+        r"let \(x, y, mut w, mut h\) = \{ let x = use_node\.convert_user_length\(AId::X, state, Length::zero\(\)\); "
+        r"let y = use_node\.convert_user_length\(AId::Y, state, Length::zero\(\)\); let \(w, h\) = use_node_size\(use_node, state\); \(x, y, w, h\) \}; "
+        r"if " + is_svg + r" \{ w = state\.use_size\.0\.unwrap_or\(w\); h = state\.use_size\.1\.unwrap_or\(h\); \} "
+        r"if (.+?) \{ return None; \} NonZeroRect::from_xywh\(x, y, w, h\)", b)
+    if not m:
+        raise Missing("use_node.rs get_clip_rect: body no longer has the transcribed form")
+    u = {'overflow': re.findall(r'Some\("([a-z-]+)"\)', m.group(1)),
+         'c1': cond_to_coq(m.group(2)), 'c2': cond_to_coq(m.group(3)), 'invalid': cond_to_coq(m.group(4))}
+    n = norm(fn_body(src, 'use_node_size'))
+    if n != ("let def = Length::new(100.0, LengthUnit::Percent); let w = node.convert_user_length(AId::Width, state, def); "
+             "let h = node.convert_user_length(AId::Height, state, def); (w, h)"):
+        raise Missing("use_node.rs use_node_size changed")
+    return u
+
+
+PINNED_USE_CLIP = {'overflow': ['visible', 'auto'], 'c1': 'is_none us0 && is_none us1', 'c2': 'negb (has_width && has_height)',
+                   'invalid': 'negb (valid_len w) || negb (valid_len h)'}
+
+
+def render_use_clip(u, header):
+    return "\n".join([
+        header, "From Coq Require Import String.\nFrom RV Require Import Model.Base Model.GeomPrims.\nLocal Open Scope Q_scope.\n",
+        "Definition is_none {A} (o : option A) : bool := match o with None => true | Some _ => false end.",
+        "Definition unwrap_or (o : option Q) (d : Q) : Q := match o with Some v => v | None => d end.",
+        "Definition valid_len (v : Q) : bool := Qltb 0 v.\n",
+        "(* use_node.rs get_clip_rect: overflow values that switch the viewport clip off *)",
+        "Definition OVERFLOW_NO_CLIP : list string := [%s]%%string.\n" % '; '.join('"%s"' % o for o in u['overflow']),
+        "(* get_clip_rect(use_node, symbol_node, state): `is_svg` = use_node is an svg element; us0, us1 = state.use_size;",
+        "   x, y, w, h = the resolved x, y, width (default 100%), height (default 100%) of use_node *)",
+        "Definition get_clip_rect (is_svg : bool) (overflow : option string) (us0 us1 : option Q) (has_width has_height : bool)",
+        "    (x y w h : Q) : option qrect :=",
+        "  if match overflow with Some o => existsb (String.eqb o) OVERFLOW_NO_CLIP | None => false end then None",
+        "  else if is_svg && (%s) && (%s) then None" % (u['c1'], u['c2']),
+        "  else let w := if is_svg then unwrap_or us0 w else w in",
+        "       let h := if is_svg then unwrap_or us1 h else h in",
+        "       if %s then None else Some {| rx := x; ry := y; rw := w; rh := h |}." % u['invalid'], ""])
+
+
 def render(t, header):
     o = [header, "From Coq Require Import String.\nFrom RV Require Import Model.Base Gen.SvgTables.\nLocal Open Scope string_scope.\n"]
     o.append("(* switch.rs: supported feature strings *)")
@@ -229,6 +462,19 @@ def render(t, header):
 NEEDED = ('features', 'retag', 'origin', 'use_ts', 'use_vb_ts', 'clamp_div')
 
 
+def gen_use_clip(api):
+    try:
+        u = parse_use_clip(api.rd)
+    except (Missing, OSError, ValueError, IndexError, KeyError) as e:
+        api.broken('table', 'UseClip', PROPS, e)
+        # as for ShapePaths: pinned text only so that the correspondence can search for a failing input
+        api.write_gen('UseClip.v', render_use_clip(PINNED_USE_CLIP, api.HEADER + "(* BROKEN TIE: pinned transcription of get_clip_rect "
+                                                   "at /repo cc5bdf2, not the current source *)\n"))
+        return
+    api.write_gen('UseClip.v', render_use_clip(u, api.HEADER))
+    api.ok('tables', 'UseClip', props=PROPS)
+
+
 def generate(api):
     try:
         t = parse_tables(api.rd, strict=False)
@@ -243,3 +489,17 @@ def generate(api):
         api.write_gen('StructTables.v', render(t, api.HEADER))
         if not t['errors']:
             api.ok('tables', 'StructTables', props=PROPS, features=len(t['features']))
+    gen_use_clip(api)
+    try:
+        sh = parse_shapes(api.rd)
+    except (Missing, OSError, ValueError, IndexError, KeyError) as e:
+        # the previous Gen/ShapePaths.v stays: the correspondence `shape-path` then runs the last readable scripts
+        # against the current code, which is what finds the failing input
+        api.broken('table', 'ShapePaths', PROPS, e)
+        # broken tie (always reported): the pinned transcription is written only so that the model still compiles and the
+        # correspondence `shape-path` can search for a concrete failing input against the changed code
+        api.write_gen('ShapePaths.v', render_shapes(PINNED_SHAPES, api.HEADER + "(* BROKEN TIE: pinned transcription of shapes.rs at /repo cc5bdf2, "
+                                                    "not the current source *)\n"))
+        return
+    api.write_gen('ShapePaths.v', render_shapes(sh, api.HEADER))
+    api.ok('tables', 'ShapePaths', props=PROPS, scripts=6)
